@@ -12,6 +12,7 @@ import Driver.Cache
 import Driver.Crash
 import Driver.Timeout
 import Driver.Files
+import Driver.Parse
 
 open Lean Driver
 
@@ -29,6 +30,8 @@ def dispatch (op : String) (inp out : Json) : Json :=
   | "crashwrite" => runCrash inp out
   | "timeout" => runTimeoutOp inp out
   | "files" => runFilesOp inp out
+  | "parse" => runParseOp inp out
+  | "lookuparg" => runLookupOp inp out
   | "timeoutrace" => runTimeoutOp inp out
   | _ => Json.mkObj [("same", Json.bool false), ("diff", Json.str s!"unknown op {op}"), ("fails", Json.arr #[])]
 
